@@ -5,7 +5,7 @@
    refinement `flatten = inst` is NOT proved (see C07_refines_partial) and is false under shadowing
    (C07_refuted_shadowing). *)
 From Coq Require Import List ZArith Bool PArith.
-From PV Require Import Lib.ClassTree Lib.Inst Model.C07_flatten Proofs.C07_flatten Proofs.C07_refine.
+From PV Require Import Lib.ClassTree Lib.Inst Model.C07_flatten Proofs.C07_flatten Proofs.C07_refine Proofs.C07_refine_ext Proofs.C07_late.
 Import ListNotations.
 
 (* C07a: a flat name is the instance path: composition prefix ++ [name] is injective, and the
@@ -119,6 +119,89 @@ Proof.
 Qed.
 Print Assumptions C07_refines_flat_example.
 
+(* REFINEMENT, stage 2: EXTENDS.  For every library whose classes are all defined at the top level
+   (`root_lib`: no nested class definitions; extends clauses without modifiers naming classes of the
+   library; no modifications; type aliases `type T = Real;` allowed as leaf types) — extends chains of
+   ANY depth, single and multiple inheritance, a base reached along several paths, inherited components
+   of classes that themselves extend, any component nesting depth, repeated classes — whenever the model
+   of pymoca's flatten returns a flat class, the specification `inst` returns the same ordered variables
+   and the same equation list: every inherited component is instantiated exactly once, inherited
+   equations are there with their references renamed.  (With all classes at the top level the inherited
+   types cannot be shadowed, which is what `no_shadowing` asks for.)  Proof: Proofs/C07_refine_ext.v —
+   fe_elems (flatten_extends = the specification's `elems`, by induction on the fuel = depth of the
+   chain, fold_sim over the extends clauses), then the generic fused loop of stage 1. *)
+Theorem C07_refines_extends (root : list cdef) (top : path) (r : list fsym * list eqn) :
+  root_lib root ->
+  ~ (exists c lex Sp b, lookup (lex_scope root []) top = Some (c, lex, Sp, b) /\ alias c) ->
+  flatten root false top = Ok r ->
+  Forall clean (fst r) /\ PV.Lib.Inst.inst root top = Some (map var_of (fst r), snd r).
+Proof. exact (refines_extends root top r). Qed.
+Print Assumptions C07_refines_extends.
+
+Theorem C07_refines_extends_real (root : list cdef) (top : path) (r : list fsym * list eqn) :
+  root_lib root ->
+  ~ (exists c lex Sp b, lookup (lex_scope root []) top = Some (c, lex, Sp, b) /\ alias c) ->
+  flatten root true top = flatten root false top ->
+  flatten root true top = Ok r ->
+  Forall clean (fst r) /\ PV.Lib.Inst.inst root top = Some (map var_of (fst r), snd r).
+Proof. intros Hp Ht E H. rewrite E in H. exact (refines_extends root top r Hp Ht H). Qed.
+Print Assumptions C07_refines_extends_real.
+
+(* In a top-level library pymoca's definition-order rule cannot fire (instance frames hold no classes), so the
+   model WITH the rule — the real code — and without it compute the same flat class, for every top class: *)
+Theorem C07_definition_order_irrelevant_toplevel (root : list cdef) (top : path) :
+  Forall eclass root -> flatten root true top = flatten root false top.
+Proof. exact (fun H => flatten_late root H top). Qed.
+Print Assumptions C07_definition_order_irrelevant_toplevel.
+
+(* ... hence the extends refinement holds for the REAL model without any semantic hypothesis *)
+Theorem C07_refines_extends_toplevel (root : list cdef) (top : path) (r : list fsym * list eqn) :
+  root_lib root ->
+  ~ (exists c lex Sp b, lookup (lex_scope root []) top = Some (c, lex, Sp, b) /\ alias c) ->
+  flatten root true top = Ok r ->
+  Forall clean (fst r) /\ PV.Lib.Inst.inst root top = Some (map var_of (fst r), snd r).
+Proof.
+  intros Hp Ht H. rewrite (flatten_late root (proj1 Hp) top) in H. exact (refines_extends root top r Hp Ht H).
+Qed.
+Print Assumptions C07_refines_extends_toplevel.
+
+(* satisfiable: type T = Real; model A input Real x; parameter T k; equation x = k; end A;
+   model B extends A; Real y; equation y = x; end B;  model C Real z[2]; end C;
+   model M extends B; extends C; B b; output Real w; equation w = b.y; z[1] = y; end M;
+   (chain M -> B -> A, multiple extends, a component of a class that extends): 8 variables, 6 equations,
+   and the real model (definition-order rule on) gives the same *)
+Definition ext_ex : list cdef :=
+  [CDef 50 kType [] [([iReal], [])] [] [];
+   CDef 40 kModel [] [] [mkSym 41 [iReal] [pInput] [] []; mkSym 42 [50] [pParam] [] []] [(ERef [41] [], ERef [42] [])];
+   CDef 43 kModel [] [([40], [])] [mkSym 44 [iReal] [] [] []] [(ERef [44] [], ERef [41] [])];
+   CDef 45 kModel [] [] [mkSym 46 [iReal] [] [2%Z] []] [];
+   CDef 47 kModel [] [([43], []); ([45], [])] [mkSym 48 [43] [] [] []; mkSym 49 [iReal] [pOutput] [] []]
+        [(ERef [49] [], ERef [48; 44] []); (ERef [46] [1%Z], ERef [44] [])]]%positive.
+Example C07_refines_extends_example :
+  root_lib ext_ex /\
+  ~ (exists c lex Sp b, lookup (lex_scope ext_ex []) [47%positive] = Some (c, lex, Sp, b) /\ alias c) /\
+  flatten ext_ex true [47%positive] = flatten ext_ex false [47%positive] /\
+  exists r, flatten ext_ex false [47%positive] = Ok r /\
+    map f_name (fst r) = [[41]; [42]; [44]; [46]; [48; 41]; [48; 42]; [48; 44]; [49]]%positive /\
+    length (snd r) = 6%nat.
+Proof.
+  split; [|split; [|split]].
+  - split.
+    + constructor; [right; constructor; [reflexivity | discriminate]|].
+      repeat (constructor; try (left; constructor); try (unfold kModel, kBuiltin, kType; discriminate);
+              try (simpl; intuition (discriminate || reflexivity))).
+    + intros c e bc l S b Hin Hc He L.
+      simpl in Hin. repeat (destruct Hin as [<-|Hin]; [try (inversion Hc; fail); simpl in He;
+        repeat (destruct He as [<-|He]; [vm_compute in L; inversion L; subst;
+          constructor; try (unfold kModel, kBuiltin, kType; discriminate);
+          repeat (constructor; try (simpl; intuition (discriminate || reflexivity)))|]); try contradiction|]);
+      contradiction.
+  - intros [c [lex [Sp [b [L A]]]]]. vm_compute in L. inversion L; subst. inversion A.
+  - vm_compute. reflexivity.
+  - eexists. split; [vm_compute; reflexivity | split; reflexivity].
+Qed.
+Print Assumptions C07_refines_extends_example.
+
 (* flatten_extends_elems (step towards C07_refines_extends): one extends level — any number of extends
    clauses, each resolving (find_base, tree.py:277) to an extends-free class that is not the class itself,
    without clause modifiers.  flatten_extends returns the fold of merge_base over the bases in clause order
@@ -136,10 +219,12 @@ Theorem C07_flatten_extends_elems (root : list cdef) (f : nat) (c : cdef) (lex :
 Proof. exact (flatten_extends_elems root f c lex menv bases). Qed.
 Print Assumptions C07_flatten_extends_elems.
 
-(* PARTIAL (stages 2 and 3 of the refinement are NOT proved).  Proved here: the extends-free step of
-   flatten_extends.  Missing for `flatten = inst` with extends under no_shadowing: (i) flatten_extends_elems
-   for CHAINS (induction on fuel over the one-level theorem above) and its counterpart for inst_go
-   (od_update vs v_update); (ii) lookup_no_shadow — under no_shadowing
+(* PARTIAL.  Proved here: the extends-free step of flatten_extends.  Proved above: C07_refines_flat (nested
+   class definitions, no extends) and C07_refines_extends (extends, top-level libraries); NOT proved: extends
+   clauses WITH modifiers and modifications in general (C08_refines).  Missing for
+   extends in libraries WITH nested class definitions / packages: (i) lex_consistent — the parent chain of a
+   class found by lookup is similar to the lexical scope of its lexical parent (find_base resolves from
+   the root, the specification from the scope the class was found in); (ii) lookup_no_shadow — under no_shadowing
    lookup (me_of deriving ...) t = lookup (class_scope declaring ...) t for every inherited symbol type t;
    (iii) alias of alias and aliases with modifiers in the type definition (attribute lemmas of C08).  Missing for modifications
    (C08_refines): apply_args_leaf — the list build puts on a leaf, applied per scope by modify_symbol,
